@@ -8,9 +8,11 @@ event_model contract (A-EVENTMODEL):
   compose_event(data, timestamps, filled): seq_num = event_counters[name]; doc {uid fresh, descriptor = descriptor uid,
         seq_num, data, timestamps, filled}; raises if the key sets differ from the descriptor's (STREAM: keys aside);
         then event_counters[name] = seq_num + 1              (the dict is shared with RunBundler._sequence_counters)
-  compose_event_page(data, timestamps): the same for a page of N rows (columns = lists of N cells): seq_num = [next, next + N),
-        descriptor = descriptor uid, then event_counters[name] = next + N
-  pack_event_page(*events): one page whose columns are the events' fields in order and whose descriptor is the last event's
+        compose_event also accepts seq_num= (and uid=, time=): a caller-supplied seq_num REPLACES the counter value and the counter
+        is then set to seq_num + 1 - so whoever passes it owns the numbering
+  compose_event_page(data, timestamps, [seq_num, filled, uid, time]): all lists of one length n; seq_num = caller's list, else
+        [event_counters[name], ..., + n - 1]; same key checks; then event_counters[name] += len(seq_num)
+  pack_event_page(*events): lists the events' fields in the order given (ValueError for none)
   compose_stop(exit_status, reason): raises on the second call (poison pill); doc {run_start, exit_status, reason,
         num_events = {k: v - 1 for k, v in event_counters.items()}}
   fresh uids are pairwise distinct (A-UUID; concrete distinct representatives 'uid-N')
@@ -44,8 +46,8 @@ class Env:
         I.call_hooks["bluesky.utils:short_uid"] = lambda I_, f, a, k: ret((a[0] + "-" if a else "") + self.uid())
         w.stubs[(MB, "compose_run")] = native(lambda I_, a, k: self.compose_run(I_, a, k))
         w.stubs[(MB, "doc_logger")] = Opaque("doc_logger", {"noop": True, "default_attr": "method"})
-        w.stubs[(MB, "pack_event_page")] = native(lambda I_, a, k: self.pack_event_page(I_, a))
         w.stubs["uuid.uuid4"] = lambda I_, a, k: self.uid()
+        w.stubs[(MB, "pack_event_page")] = native(lambda I_, a, k: self.pack_event_page(I_, a))
         w.stubs["event_model.DocumentNames"] = lambda I_, a, k: ExternalRef(f"event_model.DocumentNames.{a[0]}")
 
         def extattr(I_, obj, name):
@@ -84,11 +86,17 @@ class Env:
 
     # ---- event_model
     def pack_event_page(self, I_, events):
+        """pack_event_page(*events): the page lists every field of the events in the order given (seq_num, uid, time; data /
+        timestamps / filled transposed); ValueError for no events"""
         if not events:
-            raise PyRaise(Obj(BUILTIN_CLASSES["ValueError"], {"args": ("pack_event_page() was called with empty *args",), "__cause__": None}))
+            raise PyRaise(I_.mkexc("ValueError", "pack_event_page() was called with empty *args"))
 
         def transpose(dicts):
-            return {key: [d[key] for d in dicts] for key in dicts[0]}
+            out = {}
+            for row in dicts:
+                for key, v in row.items():
+                    out.setdefault(key, []).append(v)
+            return out
         return {"time": [e["time"] for e in events], "uid": [e["uid"] for e in events], "seq_num": [e["seq_num"] for e in events],
                 "descriptor": events[-1]["descriptor"], "filled": transpose([e.get("filled", {}) for e in events]),
                 "data": transpose([e["data"] for e in events]), "timestamps": transpose([e["timestamps"] for e in events])}
@@ -124,6 +132,8 @@ class Env:
                 filled = k3.get("filled") or {}
                 seq = k3.get("seq_num")
                 if seq is None:
+                    if name not in counters:          # (a caller that lost the stream's counter: event_model's KeyError)
+                        raise PyRaise(I3.mkexc("KeyError", name))
                     seq = counters[name]
                 ev = {"uid": env.uid(), "time": I3.w.real("t", fresh=True), "data": data, "timestamps": ts, "seq_num": seq,
                       "filled": filled, "descriptor": doc["uid"]}
@@ -137,25 +147,29 @@ class Env:
             compose_event._canon_label = f"compose_event[{name}]"
 
             def compose_event_page(I3, a3, k3):
-                # ComposeEventPage.__call__ (pages of a concrete number of rows, symbolic cell values)
                 data, ts = k3["data"], k3["timestamps"]
-                cols = list(data.values()) + list(ts.values())
-                if not cols or not all(isinstance(c, list) for c in cols):
-                    raise EngineError("compose_event_page: the columns of a page must be lists of a concrete length")
-                n = len(cols[0])
-                if any(len(c) != n for c in cols):
-                    raise PyRaise(Obj(env.validation_error, {"args": ("event_page columns of different lengths",), "__cause__": None}))
-                seq0 = counters[name]
                 filled = k3.get("filled") or {}
-                page = {"uid": [env.uid() for _ in range(n)], "time": [I3.w.real("t", fresh=True) for _ in range(n)], "data": data, "timestamps": ts,
-                        "seq_num": [ops.binop("+", seq0, i) for i in range(n)], "filled": filled, "descriptor": doc["uid"]}
+                lens = {len(v) for v in data.values()} | {len(v) for v in ts.values()}
+                if len(lens) != 1:
+                    # (event_model: length_of_value raises EventModelError / AssertionError / StopIteration for ragged or empty pages)
+                    raise PyRaise(Obj(env.model_error, {"args": ("event_page contains lists of different lengths or no data",), "__cause__": None}))
+                seq = k3.get("seq_num")
+                if name not in counters:
+                    raise PyRaise(I3.mkexc("KeyError", name))
+                if seq is None:
+                    seq = [ops.binop("+", counters[name], i) for i in range(lens.pop())]
+                npts = len(seq)
+                page = {"uid": k3.get("uid") or [env.uid() for _ in range(npts)],
+                        "time": k3.get("time") or [I3.w.real("t", fresh=True)] * npts, "data": data, "timestamps": ts,
+                        "seq_num": seq, "filled": filled, "descriptor": doc["uid"]}
                 plain = {key for key, dk in doc["data_keys"].items() if not (isinstance(dk, dict) and dk.get("external") == "STREAM:")}
                 dkeys = {key for key in data if key in plain or key not in doc["data_keys"]}
                 tkeys = {key for key in ts if key in plain or key not in doc["data_keys"]}
                 if not (plain == dkeys == tkeys) or set(filled) - set(data):
                     raise PyRaise(Obj(env.validation_error, {"args": ("event_page keys do not match the descriptor",), "__cause__": None}))
-                counters[name] = ops.binop("+", seq0, n)
+                counters[name] = ops.binop("+", counters[name], npts)
                 return page
+            compose_event_page._canon_label = f"compose_event_page[{name}]"
             ce, cp = native(compose_event), native(compose_event_page)
             ce.descriptor_doc = doc
             return Opaque(f"descriptor_bundle[{name}]", {"attrs": {"descriptor_doc": doc, "compose_event": ce, "compose_event_page": cp},
